@@ -627,3 +627,255 @@ theorem lexPrimM_of_lexPrim (st : Bool) {inp : List Char} {v : Value} {rest : Li
           · simp [hn] at h
 
 end SwimVerif.ReconEq
+
+namespace SwimVerif.ReconEq
+open SwimVerif.Recon
+
+/-! ### exact events for printed primitives -/
+
+/-- The event the parser produces for a primitive value. -/
+def primEv : Value → Event
+  | .extant => .extant
+  | .int _ n => .num (numOfInt n)
+  | .float f => .num (.float f)
+  | .bool b => .bool b
+  | .text s => .text s
+  | .data bs => .blob bs
+  | .record _ _ => .extant
+
+theorem lexRadixM_ok_shape {st : Bool} {tc tC : Char} {isD : Char → Bool} {radix : Nat} {inp : List Char} {n : Num}
+    {rest : List Char} (h : lexRadixM st tc tC isD radix inp = .ok n rest) :
+    ∃ mag, n = mkInt (stripSign inp).1 mag := by
+  unfold lexRadixM at h
+  split at h
+  · split at h <;> cases h
+  · split at h
+    · split at h <;> cases h
+    · cases h
+  · split at h
+    · split at h
+      · split at h <;> cases h
+      · cases h
+      · split at h
+        · cases h
+        · simp only [Lx.ok.injEq] at h; exact ⟨_, h.1.symm⟩
+      · simp only [Lx.ok.injEq] at h; exact ⟨_, h.1.symm⟩
+    · cases h
+
+theorem lexFloatM_ok_shape {st : Bool} {inp : List Char} {n : Num} {rest : List Char}
+    (h : lexFloatM st inp = .ok n rest) : ∃ f, n = .float f := by
+  unfold lexFloatM at h
+  split at h
+  · cases h
+  · split at h
+    · split at h
+      · cases h
+      · simp only [Lx.ok.injEq] at h; exact ⟨_, h.1.symm⟩
+    · cases h
+
+theorem lexDecimalM_ok_shape {st : Bool} {inp : List Char} {n : Num} {rest : List Char}
+    (h : lexDecimalM st inp = .ok n rest) : (∃ f, n = .float f) ∨ ∃ mag, n = mkInt (stripSign inp).1 mag := by
+  unfold lexDecimalM at h
+  split at h
+  · split at h <;> cases h
+  · split at h
+    · split at h
+      · cases h
+      · exact Or.inl (lexFloatM_ok_shape h)
+    · split at h
+      · exact Or.inl (lexFloatM_ok_shape h)
+      · split at h
+        · cases h
+        · simp only [Lx.ok.injEq] at h; exact Or.inr ⟨_, h.1.symm⟩
+      · split at h
+        · exact Or.inl (lexFloatM_ok_shape h)
+        · simp only [Lx.ok.injEq] at h; exact Or.inr ⟨_, h.1.symm⟩
+
+theorem lexNumM_ok_shape {st : Bool} {inp : List Char} {n : Num} {rest : List Char}
+    (h : lexNumM st inp = .ok n rest) : (∃ f, n = .float f) ∨ ∃ mag, n = mkInt (stripSign inp).1 mag := by
+  unfold lexNumM at h
+  split at h
+  · split at h <;> cases h
+  · split at h
+    · split at h
+      · exact lexDecimalM_ok_shape h
+      · rename_i r hr _
+        exact Or.inr (lexRadixM_ok_shape (by rw [← h]))
+    · rename_i r hr
+      exact Or.inr (lexRadixM_ok_shape (by rw [← h]))
+
+end SwimVerif.ReconEq
+
+namespace SwimVerif.ReconEq
+open SwimVerif.Recon
+
+theorem identEvent_not_num (s : List Char) (n : Num) : identEvent s ≠ .num n := by
+  unfold identEvent
+  split
+  · simp
+  · split <;> simp
+
+theorem lexPrimM_num_inv {st : Bool} {inp : List Char} {n : Num} {rest : List Char}
+    (h : lexPrimM st inp = .ok (.num n) rest) : lexNumM st inp = .ok n rest := by
+  unfold lexPrimM at h
+  split at h
+  · simp at h
+  · cases h
+  · split at h
+    · simp only [Lx.ok.injEq] at h; exact absurd h.1 (identEvent_not_num _ _)
+    · cases h
+    · split at h
+      · rename_i n' r' hn
+        simp only [Lx.ok.injEq, Event.num.injEq] at h
+        rw [hn, h.1, h.2]
+      · cases h
+      · split at h
+        · simp at h
+        · cases h
+        · cases h
+
+theorem intChars_stripSign (n : Int) (rest : List Char) :
+    (stripSign (intChars n ++ rest)).1 = decide (n < 0) := by
+  cases n with
+  | ofNat m =>
+    obtain ⟨d, ds, hd, hdd⟩ := natChars_head m
+    have hm : d ≠ '-' := digit_ne hdd '-' (by decide)
+    simp only [intChars, hd, List.cons_append, stripSign]
+    split
+    · rename_i heq; simp only [List.cons.injEq] at heq; exact absurd heq.1 hm
+    · simp
+  | negSucc m =>
+    simp only [intChars, List.cons_append, stripSign]
+    simp [Int.negSucc_lt_zero]
+
+/-- The automaton's token alternative reads the printed text of a primitive value back as exactly `primEv v`. -/
+theorem lexPrimM_printed (st : Bool) (i : Nat) {v : Value} (hp : v.isPrim = true) (hw : v.wf = true)
+    {rest : List Char} (hd : TokEnd rest) (hr : st = true → rest ≠ []) :
+    lexPrimM st (printV .compact i v ++ rest) = .ok (primEv v) rest := by
+  obtain ⟨e, he, hv⟩ := lexPrimM_of_lexPrim st (lexPrim_value i hp hw hd) hd hr
+  rw [he]
+  congr 1
+  cases v with
+  | extant => simp [Value.isPrim] at hp
+  | record a its => simp [Value.isPrim] at hp
+  | text s =>
+    simp only [Value.norm] at hv
+    cases e <;> simp [primValue] at hv
+    · subst hv; rfl
+    · rename_i n; cases n <;> simp [numValue] at hv
+  | bool b =>
+    simp only [Value.norm] at hv
+    cases e <;> simp [primValue] at hv
+    · rename_i n; cases n <;> simp [numValue] at hv
+    · subst hv; rfl
+  | data bs =>
+    simp only [Value.norm] at hv
+    cases e <;> simp [primValue] at hv
+    · rename_i n; cases n <;> simp [numValue] at hv
+    · subst hv; rfl
+  | float f =>
+    simp only [Value.norm] at hv
+    cases e <;> simp [primValue] at hv
+    rename_i n
+    cases n <;> simp [numValue] at hv
+    subst hv; rfl
+  | int k n =>
+    simp only [Value.norm] at hv
+    cases e <;> simp [primValue] at hv
+    rename_i n'
+    simp only [primEv, Event.num.injEq]
+    have hnum := lexPrimM_num_inv he
+    rcases lexNumM_ok_shape hnum with ⟨f, hf⟩ | ⟨mag, hm⟩
+    · subst hf; simp [numValue] at hv
+    · have hs : (stripSign (printV .compact i (.int k n) ++ rest)).1 = decide (n < 0) := by
+        simpa [printV] using intChars_stripSign n rest
+      rw [hs] at hm
+      subst hm
+      rw [numValue_mkInt] at hv
+      simp only [intValue, Value.int.injEq] at hv
+      unfold numOfInt
+      by_cases hn : n < 0
+      · simp only [hn, decide_true, ↓reduceIte] at hv ⊢
+        have : mag = n.natAbs := by omega
+        rw [this]
+      · simp only [hn, decide_false, Bool.false_eq_true, ↓reduceIte] at hv ⊢
+        have : mag = n.natAbs := by omega
+        rw [this]
+
+/-- No primitive token starts with a character that is not a token start. -/
+theorem lexPrimM_not_start (st : Bool) {c : Char} (hc : primStart c = false) (t : List Char) :
+    lexPrimM st (c :: t) = .err := by
+  simp only [primStart, Bool.or_eq_false_iff, beq_eq_false_iff_ne] at hc
+  obtain ⟨⟨⟨⟨⟨⟨hq, hid⟩, hdg⟩, hmin⟩, hpct⟩, hpl⟩, hdot⟩ := hc
+  have hs : stripSign (c :: t) = (false, c :: t) := by
+    unfold stripSign
+    split
+    · rename_i heq; simp only [List.cons.injEq] at heq; exact absurd heq.1 hmin
+    · rfl
+  have hsp : stripPlusMinus (c :: t) = (false, c :: t) := by
+    unfold stripPlusMinus
+    split
+    · rename_i heq; simp only [List.cons.injEq] at heq; exact absurd heq.1 hmin
+    · rename_i heq; simp only [List.cons.injEq] at heq; exact absurd heq.1 hpl
+    · rfl
+  have htw : (c :: t).takeWhile isDigit = [] := by simp [List.takeWhile, hdg]
+  have h0 : c ≠ '0' := by intro h; subst h; simp [isDigit] at hdg
+  have hrad : ∀ tc tC isD radix, lexRadixM st tc tC isD radix (c :: t) = .err := by
+    intro tc tC isD radix
+    unfold lexRadixM
+    rw [hs]
+    cases t with
+    | nil => simp [h0]
+    | cons y ys => simp [h0]
+  have hfl : lexFloatM st (c :: t) = .err := by
+    unfold lexFloatM fltInc lexFloat
+    rw [hsp]
+    simp only [fltIncBody_nodigits_other hdot htw, Bool.and_false, Bool.false_eq_true, ↓reduceIte,
+      lexFloatBody_nodigits_other false hdot htw]
+  unfold lexPrimM
+  simp only [lexStr, hq, ↓reduceIte, lexIdentM, hid, Bool.false_eq_true]
+  have hnum : lexNumM st (c :: t) = .err := by
+    unfold lexNumM
+    simp only [hrad]
+    unfold lexDecimalM
+    rw [hs]
+    simp only [htw, hfl]
+  rw [hnum]
+  simp [lexBlobM, hpct]
+
+/-! ### attribute names -/
+
+/-- `alt((string_literal, identifier))` on a printed attribute name followed by a non-identifier character. -/
+theorem lexName_printed (nm : List Char) {x : Char} (xs : List Char) (hx : isIdentChar x = false) :
+    lexName (attrName nm ++ x :: xs) = .ok nm (x :: xs) := by
+  unfold lexName
+  rw [attrName_eq]
+  cases h : isIdentifier nm
+  · rw [stringLiteral_quoted h]
+    simp only [List.cons_append, List.append_assoc, List.nil_append]
+    rw [lexStr_of_lexString (lexString_escape nm (x :: xs))]
+  · obtain ⟨hl, _⟩ := (quote_decision_agrees nm).mp h
+    obtain ⟨c, cs, rfl, hc, _⟩ := (lexIdent_eq_self_iff nm).mp hl
+    have hq : c ≠ '"' := by intro h'; subst h'; simp [quote_not_identStart] at hc
+    have : stringLiteral (c :: cs) = c :: cs := by simp [stringLiteral, h]
+    rw [this]
+    have hlex := lexIdent_append hl (rest := x :: xs) (by intro y hy; simp at hy; subst hy; exact hx)
+    have hstr : lexStr (c :: cs ++ x :: xs) = .err := by simp [lexStr, hq]
+    rw [hstr]
+    exact lexIdentM_of_lexIdent true hlex (by simp)
+
+theorem lexAttr_body (nm : List Char) (r : List Char) :
+    lexAttr ('@' :: (attrName nm ++ '(' :: r)) = .ok (nm, true) r := by
+  unfold lexAttr
+  simp only [↓reduceIte]
+  rw [lexName_printed nm r (by decide)]
+  simp
+
+theorem lexAttr_nobody (nm : List Char) {x : Char} (xs : List Char) (hx : isIdentChar x = false) (hp : x ≠ '(') :
+    lexAttr ('@' :: (attrName nm ++ x :: xs)) = .ok (nm, false) (x :: xs) := by
+  unfold lexAttr
+  simp only [↓reduceIte]
+  rw [lexName_printed nm xs hx]
+  simp [hp]
+
+end SwimVerif.ReconEq
